@@ -44,11 +44,14 @@ Predicate: exactly one distinct result per query. Model: exact-match lookup in t
 variables, each with a `StdRng::seed_from_u64(seed)` and with the recorded-coin generator, behind a wrapper that
 counts the draws; `det` = per (operation, generator) the distinct `result@draws` over `r` runs in one thread and `r`
 runs in threads, all identically seeded; `other` = per operation the `result@draws` of `r` runs with other seeds.
-Predicate: one distinct `result@draws` per (operation, generator); every result (any seed) is a satisfying
-valuation / a path to one / one of the two (2^d) possible picks; the number of draws equals the number of free and
+Predicate (FAIL): one distinct `result@draws` per (operation, generator) — a deterministic function of the generator
+returns AND consumes identically in identically seeded repetitions; every result (any seed) is a satisfying
+valuation / a path to one fixing only its own variables / a subset of the operand that is empty only if the operand
+is. Model agreement (DIS only, never FAIL): the coin runs give `Select.randomValuation`, `Select.randomClause`,
+`varPickRandom`, `pickRandom` with the same coins; the number of draws of every run equals the number of free and
 branching positions of the result (valuation), of branching nodes on the path (clause), 1, resp. the number of
-distinct variables — a callee that takes randomness from anywhere else draws too little. Model (coin runs):
-`Select.randomValuation`, `Select.randomClause`, `varPickRandom`, `pickRandom` with the same coins.
+distinct variables; a pick is one of the model's 2^d picks. An implementation that consumes the caller's generator
+differently (but deterministically) therefore yields at most a broken tie.
 `C19.hist n pool disturbance panel => ref after twice here hereAfter outcomes`: purity w.r.t. HISTORY. A fixed
 panel of reference operations (serialisers, also into accepting sinks; readers of good input; Boolean and
 relational operators; counts; normal forms; enumeration; parser + evaluation; dot export) is evaluated on a fresh
@@ -237,36 +240,63 @@ def rngModel (A : Arr) (n : Nat) (vars : List Nat) (coins : List Bool) (op : Nat
     | x :: _ => if x < n then showArr (varPickRandom A x (coins.headD false)) ++ "@1" else "panic@1"
   | _ => if vars.all (· < n) then showArr (pickRandom A vars coins) ++ s!"@{pickRandomDraws vars}" else "panic@0"
 
-/-- the property's clauses on one observed `result@draws` of operation `op` (any generator, any seed) -/
-def rngCheck (A : Arr) (n : Nat) (vars : List Nat) (picks vpicks : List String) (op : Nat) (x : String) : Option String :=
+/-- the PROPERTY's validity clause on one observed `result@draws` of operation `op` (any generator, any seed): the
+    result satisfies the Bdd / is a path to one / is a non-empty subset of the operand. Nothing here compares with
+    the model's choice of result or with a number of draws: how an implementation consumes the caller's generator is
+    its own business as long as it is a deterministic function of it (the cross-repetition clause). -/
+def rngCheck (A : Arr) (n : Nat) (op : Nat) (x : String) : Option String :=
+  let res := (splitDraws x).1
+  let nm := rngOpName op
+  match op with
+  | 0 =>
+    if A.size ≤ 1 then (if res == "none" then none else some s!"{nm}:false-diagram") else
+    let v := parseBits res
+    if res.length != n && !(n == 0 && res == "~") then some s!"{nm}:not-a-valuation" else
+    if (walkVal A v n 0 (root A) 0).1 != 1 then some s!"{nm}:result-does-not-satisfy-the-Bdd" else none
+  | 1 =>
+    if A.size ≤ 1 then (if res == "none" then none else some s!"{nm}:false-diagram") else
+    match walkClause A res.toList (A.size + 1) (root A) 0 0 with
+    | some (p, met, _) =>
+      let fixed := (res.toList.filter fun c => c == '0' || c == '1').length
+      if p != 1 then some s!"{nm}:result-is-not-a-path-to-one"
+      else if fixed != met then some s!"{nm}:fixes-variables-off-the-path"
+      else none
+    | none => some s!"{nm}:result-is-not-a-path-to-one"
+  | _ =>
+    if res == "novar" then none else
+    match parseArr? res with
+    | none => some s!"{nm}:outcome-{res}"
+    | some R =>
+      -- a pick is a subset of the operand, empty only if the operand is (`applyWithFlip` = canon of the pointwise
+      -- connective is a theorem, so this is a semantic test, not a comparison with the model of the pick)
+      if numVars R != numVars A then some s!"{nm}:variable-count-changed"
+      else if (applyWithFlip R A Gen.and_not_ none none none).size != 1 then some s!"{nm}:result-is-not-a-subset-of-the-operand"
+      else if (R.size == 1) != ((applyWithFlip A A Gen.and_ none none none).size == 1) then some s!"{nm}:emptiness-differs-from-the-operand"
+      else none
+
+/-- MODEL agreement on one observed `result@draws` (not part of the property): the number of draws is the number of
+    free plus branching positions of the result (valuation), of branching nodes on the path (clause), 1, the number of
+    distinct variables; a pick is one of the model's two / 2^d picks. `none` = agrees. -/
+def rngModelCheck (A : Arr) (n : Nat) (vars : List Nat) (picks vpicks : List String) (op : Nat) (x : String) : Option String :=
   let (res, drawsS) := splitDraws x
   let draws := drawsS.toNat?.getD 1000000000
   let nm := rngOpName op
   match op with
   | 0 =>
-    if A.size ≤ 1 then (if res == "none" && draws == 0 then none else some s!"{nm}:false-diagram") else
-    let v := parseBits res
-    if res.length != n && !(n == 0 && res == "~") then some s!"{nm}:not-a-valuation" else
-    let w := walkVal A v n 0 (root A) 0
-    if w.1 != 1 then some s!"{nm}:result-does-not-satisfy-the-Bdd"
-    else if w.2 != draws then some s!"{nm}:draws-{draws}-but-{w.2}-free-or-branching-positions"
-    else none
+    if A.size ≤ 1 then (if draws == 0 then none else some s!"{nm}:draws-{draws}-expected-0") else
+    let w := walkVal A (parseBits res) n 0 (root A) 0
+    if w.2 != draws then some s!"{nm}:draws-{draws}-but-{w.2}-free-or-branching-positions" else none
   | 1 =>
-    if A.size ≤ 1 then (if res == "none" && draws == 0 then none else some s!"{nm}:false-diagram") else
+    if A.size ≤ 1 then (if draws == 0 then none else some s!"{nm}:draws-{draws}-expected-0") else
     match walkClause A res.toList (A.size + 1) (root A) 0 0 with
-    | some (p, met, br) =>
-      let fixed := (res.toList.filter fun c => c == '0' || c == '1').length
-      if p != 1 then some s!"{nm}:result-is-not-a-path-to-one"
-      else if fixed != met then some s!"{nm}:fixes-variables-off-the-path"
-      else if br != draws then some s!"{nm}:draws-{draws}-but-{br}-branching-nodes"
-      else none
-    | none => some s!"{nm}:result-is-not-a-path-to-one"
+    | some (_, _, br) => if br != draws then some s!"{nm}:draws-{draws}-but-{br}-branching-nodes" else none
+    | none => none
   | 2 =>
-    if !(vpicks.contains res) then some s!"{nm}:result-is-not-one-of-the-two-picks"
+    if !(vpicks.contains res) then some s!"{nm}:result-is-not-one-of-the-model's-two-picks"
     else if draws != (if vars.isEmpty then 0 else 1) then some s!"{nm}:draws-{draws}-expected-1"
     else none
   | _ =>
-    if !(picks.contains res) then some s!"{nm}:result-is-not-a-pick-for-any-coins"
+    if !(picks.contains res) then some s!"{nm}:result-is-not-a-model-pick-for-any-coins"
     else if res != "panic" && draws != pickRandomDraws vars then some s!"{nm}:draws-{draws}-expected-{pickRandomDraws vars}"
     else none
 
@@ -498,22 +528,33 @@ def handle (key : String) (ins obs : List String) : Verdict :=
       let other := (otherS.splitOn ";").map (·.splitOn "#")
       if det.length != 8 || other.length != 4 || r < 8 || other.any (·.length != r) then
         { agree := false, model := "shape", fail := some "shape", nontrivial := false } else
-      -- the model's answers for the recorded coins
+      -- MODEL agreement: the coin runs give the model's result and draw count; every observed result (any generator,
+      -- any seed) consumes the model's number of draws and, for picks, is one of the model's picks
       let modelCoin : List String := (List.range 4).map (rngModel A n vars coins)
       let coinObs := (List.range 4).map fun op => det.getD (2 * op + 1) []
-      let agree := (modelCoin.zip coinObs).all fun (m, o) => o == [m]
-      let model := if agree then "" else
-        match ((List.range 4).zip (modelCoin.zip coinObs)).find? fun (_, m, o) => o != [m] with
-        | some (op, m, _) => s!"{rngOpName op}:{m.take 120}"
-        | none => "?"
       let picks := pickCandidates A vars
       let vpicks := varPickCandidates A vars
-      let checkAll (op : Nat) (xs : List String) : Option String := xs.findSome? (rngCheck A n vars picks vpicks op)
+      let modelAll (op : Nat) (xs : List String) : Option String := xs.findSome? (rngModelCheck A n vars picks vpicks op)
+      let modelIssue : Option String := firstFail (
+        ((List.range 4).map fun op =>
+          let o := coinObs.getD op []
+          let m := modelCoin.getD op ""
+          if o == [m] then none else some s!"{rngOpName op}:CoinRng:{m.take 120}") ++
+        ((List.range 8).map fun i => modelAll (i / 2) (det.getD i [])) ++
+        ((List.range 4).map fun op => modelAll op (other.getD op [])))
+      let agree := modelIssue.isNone
+      let model := modelIssue.getD ""
+      -- PROPERTY: a deterministic function of the generator (one distinct result AND one distinct consumption per
+      -- operation and generator over all identically seeded repetitions and threads), and valid results for every seed
+      let checkAll (op : Nat) (xs : List String) : Option String := xs.findSome? (rngCheck A n op)
       let fail := firstFail (
         ((List.range 8).map fun i =>
           let o := det.getD i []
           if o.length == 1 then none
           else some s!"rng-not-deterministic:{rngOpName (i / 2)}:{if i % 2 == 0 then "StdRng" else "CoinRng"}:{o.length}-distinct-results-or-draw-counts") ++
+        ((List.range 4).map fun op =>
+          if (other.getD op []).any (fun x => (x.splitOn "!=").length > 1)
+          then some s!"rng-not-deterministic:{rngOpName op}:StdRng-other-seed:2-distinct-results-or-draw-counts" else none) ++
         ((List.range 8).map fun i => checkAll (i / 2) (det.getD i [])) ++
         ((List.range 4).map fun op => checkAll op (other.getD op [])))
       let maxGap := longestFreeRun A n
